@@ -180,6 +180,9 @@ func (r *report) finish() int {
 			for _, e := range fr.Externs {
 				externs[e] = true
 			}
+			for _, w := range fr.Waived {
+				trusted["explicit obligation not claimed — "+w] = true
+			}
 		}
 		nClaimed, nDischarged, nUnclaimed, nUnclaimedOK := 0, 0, 0, 0
 		var solverTime float64
